@@ -59,3 +59,16 @@ package cert
 //@     invariant forall(i, 0 <= i && i <= rangeindex, labeledPrincipals[i] == principals[i] + ":notouch")
 //@     invariant labeledPrincipals == nil || fresh(arr(labeledPrincipals))
 //@     invariant unchanged(elems(principals))
+
+//@ # ---------------------------------------------------------------- C07 (validity window)
+//@ # ValidAfter / ValidBefore are uint64 seconds; values above MaxInt64 (incl. the "forever" value 2^64-1) are clamped
+//@ ghost pure func clampT(u int) int = u > 9223372036854775807 ? 9223372036854775807 : u
+//@ ghost pure func inWindow(va int, vb int, now int) bool = clampT(va) <= now && now <= clampT(vb)
+
+//@ func ValidateSSHCertTime(cert, currentTime)
+//@   ensures cert == nil ==> !result
+//@   ensures [given-clock] (cert != nil && !tIsZero(currentTime)) ==>
+//@     (result <==> inWindow(cert.ValidAfter, cert.ValidBefore, tUnix(currentTime))) && calls(time.Now) == old(calls(time.Now))
+//@   ensures [wall-clock] (cert != nil && tIsZero(currentTime)) ==> calls(time.Now) == old(calls(time.Now)) + 1 &&
+//@     (result <==> inWindow(cert.ValidAfter, cert.ValidBefore, tUnix(ret(time.Now, old(calls(time.Now)), 0))))
+//@   ensures [forever-never-expires] (cert != nil && cert.ValidBefore == 18446744073709551615 && cert.ValidAfter == 0) ==> result
